@@ -186,7 +186,44 @@ def other(ctx, case, cfg, seed, name):
         bound = inst["k"] + 1
     else:
         raise KeyError(name)
+    rule_bad = []
+    if name == "ffsp":
+        # monitor on every state the explorer steps into: the offered actions must be exactly those the environment documents
+        # (a job is offered iff it sits in the current stage and is not being processed; idling is offered iff a job is still in
+        # an earlier stage, or a job of this stage is still being processed, or the instance is done). The reachable optimum
+        # alone cannot tell a further restriction of idling from the recorded non-delay finding.
+        J_ = cfg["jobs"]
+        o_step_ = env.step
+
+        def step_(td):
+            r = o_step_(td)
+            nx = r["next"]
+            try:
+                loc, wt, stg = nx["job_location"][:, :J_], nx["job_wait_step"][:, :J_], nx["stage_idx"].reshape(-1, 1)
+                dn = nx["done"].reshape(-1).bool()
+                am = nx["action_mask"].bool()
+                in_stage = loc == stg
+                exp_jobs = in_stage & (wt == 0)
+                exp_wait = (loc < stg).any(-1) | (in_stage & (wt > 0)).any(-1) | dn
+                ctx.count("c05_ffsp_rule_states", int(am.shape[0]))
+                live = ~dn
+                if bool((am[:, :J_] != exp_jobs)[live].any()) or bool((am[:, -1] != exp_wait)[live].any()):
+                    i = int(((am[:, :J_] != exp_jobs).any(-1) | (am[:, -1] != exp_wait))[live].nonzero()[0]) if live.any() else 0
+                    rule_bad.append(dict(job_location=loc[live][i].tolist(), job_wait_step=wt[live][i].tolist(), stage=int(stg[live][i]), mask=am[live][i].int().tolist(),
+                                         expected_jobs=exp_jobs[live][i].int().tolist(), expected_wait=bool(exp_wait[live][i])))
+            except KeyError:
+                pass
+            return r
+
+        env.step = step_
     leaves, complete, st = explore.explore(env, td_in, max_nodes=MAX_NODES, max_depth=bound, reward_fn=reward_fn)
+    if name == "ffsp":
+        env.step = o_step_
+        ctx.evaluation()
+        if rule_bad:
+            w = rule_bad[0]
+            ctx.violation(sig_of(cfg, q="offered_actions_differ_from_documented_rule"), f"a reachable state offers {w['mask']} (jobs.., idle) but the documented rule gives jobs {w['expected_jobs']} / idle {w['expected_wait']} "
+                          f"(job stages {w['job_location']}, remaining processing {w['job_wait_step']}, machine's stage {w['stage']}); {len(rule_bad)} such step(s)", dict(inst=inst, state=w))
     ctx.count("c05_explorer_nodes", st["nodes"])
     if st["dead_ends"]:
         ctx.violation(sig_of(cfg, q="dead_end"), f"explorer reached a state with no feasible action after {list(st['dead_ends'][0])}", dict(inst=inst, prefix=list(st["dead_ends"][0])))
